@@ -27,8 +27,8 @@ pub fn prop() -> Prop {
         id: "C13",
         level: "fault_enumeration",
         runs: |t| match t {
-            Tier::Quick => 150,
-            Tier::Thorough => 2200,
+            Tier::Quick => 400,
+            Tier::Thorough => 5000,
         },
         generate,
         exec,
